@@ -116,7 +116,7 @@ def run_pets(sc):
     rules = [dict(comps=["dynamics"], counter="step", mod=nspi, rem=(ls - 1) % nspi, after=ls - 1)]
     cfg = base_cfg("pets", sc, start=0, eplimit=0, warmlearn=ls - 1, warmact=ls, explore_only_in_warmup=True, ulpk=0, policy_probe=True,
                    ret_applicable=False, trained=["dynamics"], targets=[], segment="sample", rules=rules)
-    return finish(rec, "pets", sc, cfg, returned=None, final=final_digests(dynamics=state.model), error=err)
+    return finish(rec, "pets", sc, cfg, returned=None, final=final_digests(dynamics=state.model), error=err, buffer=buf)
 
 
 # ------------------------------------------------------------------ CMA-ES
